@@ -2,7 +2,7 @@
     Only statements; each closed by [exact <lemma>] and followed by Print Assumptions.
     Breaker-level statements are about the specification machine of Breaker.v, which
     [C06_refinement] shows answers exactly like the circuit.py model on every monotone history. *)
-From Redress Require Import Base Window Breaker BreakerProofs Budget Runner Corr Policy PolicyCorr PolicyProofs.
+From Redress Require Import Base Window Breaker BreakerProofs Budget Runner Corr Policy PolicyCorr PolicyProofs PolicyInterleave.
 
 (** While OPEN and before recovery_timeout_s has elapsed, allow() rejects and changes nothing. *)
 Theorem C07_open_rejects : forall c now s t0,
@@ -95,6 +95,28 @@ Theorem C07_policy_rejected_call : forall kc x start b ks a s n,
   tend = start /\ b' = b /\ ks' = snd (allow kc start ks).
 Proof. exact policy_rejected_call. Qed.
 Print Assumptions C07_policy_rejected_call.
+
+(** Interleavings of concurrently running calls.  A call touches the breaker at two points only, admission
+    and settlement (C09), so every interleaving of concurrent (async) policy calls is a history of
+    [HAdmit i t] / [HSettle i kind t] steps.  For every such history in which a settlement belongs to an
+    admitted, not yet settled call and a call admitted while CLOSED does not settle while the circuit is
+    HALF_OPEN ([irun] is defined exactly on those): at most one admitted half-open probe is outstanding
+    at any time, and while it is outstanding every other caller is rejected. *)
+Theorem C07_single_probe_interleaved : forall kc h ks o,
+  irun kc h (kinit, []) = Some (ks, o) ->
+  (probes o <= 1)%nat /\
+  (probes o = 1%nat -> forall t, exists n, fst (allow kc t ks) = KDecision false HALF_OPEN n).
+Proof. exact single_probe_interleaved. Qed.
+Print Assumptions C07_single_probe_interleaved.
+
+(** Non-vacuity of the interleaving theorem: A and B admitted while CLOSED, A fails and opens the circuit,
+    B ends (harmlessly, the circuit is OPEN), P is admitted as the probe after the timeout, Q is rejected,
+    P succeeds. *)
+Example C07_interleaving_nonvacuous :
+  let kc := mk_kcfg 1 100 5 [TRANSIENT] [] in
+  exists ks o, irun kc [HAdmit 0 0; HAdmit 1 0; HSettle 0 (SFail TRANSIENT) 1; HSettle 1 SSucc 2;
+                        HAdmit 2 6; HAdmit 3 6; HSettle 2 SSucc 7] (kinit, []) = Some (ks, o) /\ st ks = CLOSED /\ o = [].
+Proof. eexists _, _. vm_compute. repeat split; reflexivity. Qed.
 
 (** ---------------- the two known findings (kept, not repaired; DESIGN.md §7.5) ---------------- *)
 (** "All others are rejected until its result is recorded" fails when a record is issued by a call that
